@@ -146,6 +146,7 @@ var activities = []activity{
 	{"tagging job body of a tag that filters on cached converter output", []string{"api:import:P1+P2", "drain", "api:addtag:tag/p=cport:1", "drain", "api:converters:tag/p=conv", "drain", "api:addtag:tag/d=cdata.conv:FOO"}, "tag", true, false, nil, nil},
 	{"conversion job body whose converter process dies on one of two streams", []string{"api:import:P1+P2", "drain", "api:addtag:tag/p=cport:1", "drain", "api:converters:tag/p=conv"}, "convert", true, false, nil, map[string]string{"VCONV_DIE_ON": "FOO1"}},
 	{"conversion job body whose converter breaks the protocol on one of two streams", []string{"api:import:P1+P2", "drain", "api:addtag:tag/p=cport:1", "drain", "api:converters:tag/p=conv"}, "convert", true, false, nil, map[string]string{"VCONV_BAD_ON": "FOO2"}},
+	{"conversion job body of a converter that writes 120 KiB of diagnostics per stream", []string{"api:import:P1+P2", "drain", "api:addtag:tag/p=cport:1", "drain", "api:converters:tag/p=conv"}, "convert", true, false, nil, map[string]string{"VCONV_STDERR": "loud"}},
 	// a second API client: its calls overlap with the calls of the table (two request handlers of the web server)
 	{"second client: converter reset, detach and attach", []string{"api:import:P1+P2", "drain", "api:addtag:tag/p=cport:1", "drain", "api:converters:tag/p=conv", "drain"}, "", true, false, clientConverters, nil},
 	{"second client: tag add, query edit, mark add/remove, delete", []string{"api:import:P1+P2", "drain", "api:addtag:tag/d=cdata:foo", "drain", "api:addtag:tag/p=cport:1", "drain"}, "", false, false, clientTags, nil},
